@@ -12,6 +12,9 @@ Trace == ndJsonDeserialize(IOEnv.TRACE_FILE)
 VARIABLES l, st, dead, bad, nacc
 tvars == <<l, st, dead, bad, nacc>>
 
+\* whole: the behaviour ended by itself (equality); otherwise it was cut at a depth bound (the prediction is a prefix)
+ExpectMet(h, x, whole) == IF whole THEN h = x ELSE IsPrefixOf(x, h)
+
 TInit == l = 1 /\ st = InitState(<<>>, FALSE, FALSE) /\ dead = TRUE /\ bad = <<>> /\ nacc = 0
 
 TNext ==
@@ -22,8 +25,11 @@ TNext ==
      THEN /\ st' = InitState(e.stream, e.fireCont, e.skipUtf8)
           /\ dead' = FALSE /\ bad' = bad /\ nacc' = nacc
      ELSE IF e.ev = "end"
-     THEN /\ UNCHANGED <<st, bad>> /\ dead' = TRUE
-          /\ nacc' = IF dead THEN nacc ELSE nacc + 1
+     THEN \* a trace replayed from a behaviour of RecvSim carries the observable history the model predicted
+          LET drift == ~dead /\ "expect" \in DOMAIN e /\ ~ExpectMet(st.hist, e.expect, e.whole) IN
+          /\ st' = st /\ dead' = TRUE
+          /\ bad' = IF drift THEN Append(bad, [tid |-> e.tid, at |-> e.i, ev |-> "end", why |-> "model.behaviour_not_reproduced"]) ELSE bad
+          /\ nacc' = IF dead \/ drift THEN nacc ELSE nacc + 1
      ELSE IF dead THEN UNCHANGED <<st, dead, bad, nacc>>
      ELSE LET r == Step(st, e) IN
           IF r.ok THEN st' = r.s /\ UNCHANGED <<dead, bad, nacc>>
